@@ -62,7 +62,7 @@ def div_pair(rng, w, n, signed):
     return tag, a, b
 
 
-def gen(rng, tier):
+def _gen_main(rng, tier):
     reps = 120 if tier == "thorough" else 14
     clist = cfgs(tier) if tier == "thorough" else cfgs(tier) + EXTRA_QUICK
     # directed Knuth-D cases: operand pairs whose division takes the add-back branch (found by exact simulation)
@@ -101,3 +101,20 @@ def gen(rng, tier):
                 for a in range(256):
                     for b in range(256):
                         yield f"{op} {s}8x1 {hx(a)} {hx(b)}", "exhaustive8"
+
+
+def gen(rng, tier):
+    yield from _gen_main(rng, tier)
+    yield from _grid(rng, tier)
+
+
+def _grid(rng, tier):
+    lim = 20000 if tier == "thorough" else 700
+    for cfg in GRID_CFGS:
+        for s in "ui":
+            for op in ("checked_div", "checked_rem", "checked_div_euclid", "checked_rem_euclid", "overflowing_div"):
+                for a, b in grid_pairs(rng, cfg, lim):
+                    yield f"{op} {s}{cfg} {hx(a)} {hx(b)}", "edge-grid"
+            for a, b in grid_pairs(rng, cfg, lim):
+                yield f"div_floor {s}{cfg} dbg {hx(a)} {hx(b)}", "edge-grid"
+                yield f"div_ceil {s}{cfg} rel {hx(a)} {hx(b)}", "edge-grid"
